@@ -1,6 +1,11 @@
 """Which units / Kani harnesses decide which property (DESIGN section 4 and 5)."""
 
 PROPS = {
+    "C01": dict(units=["u_seq"],
+                claim="per-function contracts of SequentialWriterBuilder::next / SequentialWriter::{write,flush,drop} (wait-for-predecessor before touching the sink and before releasing the successor) + lemma L-ORDER: in every trace of contract-respecting steps the sink log is resp_0 ++ resp_1 ++ ... for all interleavings and any number of writers",
+                replays=[dict(match=r"SequentialWriter<W>::drop", bin="c01_drop_unwritten", input="three pipelined GETs; rq2.into_writer() dropped unwritten on its own thread; rq3.respond on another thread; then rq1.respond: response 1 must precede response 3"),
+                         dict(match=r"SequentialWriter<W>::(write|flush)", bin="c01_drop_unwritten", input="three pipelined GETs answered out of order on different threads")],
+                not_decided=["NOT MACHINE-CHECKED: the reading of the function contracts as trace premises P1-P3 of L-ORDER (lemmas/l_order.rs header) rests on A-CHAN, A-MUTEX, A-DROP; size/flush behaviour of the std BufWriter under the mutex is std"]),
     "C03": dict(units=["u_readers"],
                 replays=[dict(match=r"FusedReader<R>::read", bin="c03_zero_read", input="POST with Content-Length: 2000, handler calls as_reader().read(&mut []) and then read_to_end: must deliver all 2000 bytes")],
                 claim="request body readers deliver exactly the framed bytes (stream contract of EqualReader/FusedReader)"),
